@@ -5,8 +5,64 @@ from . import _storage as S
 from .c04 import ASSUME
 
 
+def _dangling_txn(s):
+    """a script whose removal of undo steps left 'begin vote finish' only is fine; nothing to filter"""
+    return False
+
+
 def packed(r):
     return (r['actions'].get('PackQ', 0) + r['actions'].get('Pack', 0)) >= 1 and r['txns'] >= 2
+
+
+def pack_scripts(rng, n, noid=4):
+    """Directed pack scenarios: build a small object graph, change / undo / delete, pack at some second with gc
+    on or off, then go on (commit, undo, reopen, pack again)."""
+    from ..drivers import scripts as sc
+    out = []
+    # deterministic family: chains of modify/undo of an object that holds the only reference to a child
+    for k in (1, 2, 3):
+        for gc in (True, False):
+            s = sc.commit([(0, 'v1', (1,)), (1, 'v1', (2,)), (2, 'v1', ())], clk=1)
+            clk = 1
+            for i in range(k):
+                clk += 1
+                s += sc.commit([(1, 'v2', ())], clk=clk)
+                clk += 1
+                s += sc.undo(-1, clk=clk)
+            s += sc.pack(clk, gc) + sc.commit([(2, 'v2', ())], clk=clk + 1) + sc.undo(-1, clk=clk + 1) + sc.reopen()
+            out.append(s)
+    while len(out) < n:
+        clk = 1
+        kids = list(range(1, noid))
+        rng.shuffle(kids)
+        linked = kids[:rng.randint(1, len(kids))]
+        s = sc.commit([(0, 'v1', tuple(linked[:2]))] + [(o, 'v1', tuple(x for x in linked if x > o)[:1]) for o in kids], clk=clk)
+        for _ in range(rng.randint(1, 5)):
+            clk = min(clk + rng.choice((0, 1, 1)), 7)
+            op = rng.random()
+            o = rng.choice(range(noid))
+            if op < 0.45:
+                s += sc.commit([(o, rng.choice(('v1', 'v2')), tuple(rng.sample(kids, rng.randint(0, 2))))], clk=clk)
+            elif op < 0.75:
+                s += sc.undo(rng.choice((-1, -1, -2)), clk=clk)
+            elif op < 0.85:
+                s += sc.delete(rng.choice(kids), clk=clk)
+            else:
+                s += sc.commit([(rng.choice(kids), 'v2', ()), (0, 'v2', tuple(rng.sample(kids, rng.randint(0, 2))))], clk=clk)
+        s += sc.pack(rng.randint(0, clk + 1), rng.random() < 0.7)
+        for _ in range(rng.randint(0, 3)):
+            clk = min(clk + 1, 7)
+            op = rng.random()
+            if op < 0.35:
+                s += sc.commit([(rng.choice(range(noid)), 'v2', tuple(rng.sample(kids, rng.randint(0, 1))))], clk=clk)
+            elif op < 0.6:
+                s += sc.undo(rng.choice((-1, -2)), clk=clk)
+            elif op < 0.8:
+                s += sc.reopen()
+            else:
+                s += sc.pack(rng.randint(0, clk + 1), rng.random() < 0.7)
+        out.append(s)
+    return out
 
 
 def run(ctx):
@@ -25,14 +81,25 @@ def run(ctx):
                           invariants=['TypeOK'], properties=props, next_='NextWithPack', timeout=3000)
     # 2. behaviours with packs at every time, gc on/off, repeated, then more commits / undos / reopen
     big = dict(NOid=4, Metas=('m0',), MaxTxn=9, MaxRecs=3, MaxClock=4, AtomVals=('v1', 'v2'), RefSets='FewRefs2', Cls='MCClsPlain')
-    num = 300 if q else 6000
+    num = 200 if q else 6000
     cov = {}
     for kind in ('file', 'mapping'):
         c = sd.consts(kind, **big)
         files = S.simulate(ctx, kind, c, num=num, depth=80, seed=ctx.seed + 17, next_='NextPack', properties=props)
         res = S.replay_all(ctx, files, kind, c, opts={'sparse': False})
+        # 3. directed scenarios evaluated by TLC (ZScript)
+        import random
+        from ..drivers import scripts as sc
+        scripts = pack_scripts(random.Random(ctx.seed * 7919 + 1), 120 if q else 1500)
+        if kind == 'mapping':
+            scripts = [[e for e in s if e['a'] not in ('undo', 'delete', 'reopen')] for s in scripts]
+            scripts = [s for s in scripts if not _dangling_txn(s)]
+        cs = sd.consts(kind, **dict(big, MaxTxn=14, MaxRecs=5, MaxClock=8, RefSets='AllRefs'))
+        behs = sc.evaluate(ctx, kind, scripts, cs)
+        res += S.replay_all(ctx, behs, kind, cs, opts={'sparse': False}, tag='scr')
         cov[kind] = S.judge(ctx, res, kind, focus=packed)
         cov[kind]['sample'] = res[0]['sig'][:30]
+        cov[kind]['scripted'] = len(behs)
     ev = sum(v['behaviours'] for v in cov.values())
     return ctx.finish({
         'evaluations': ev,
